@@ -93,6 +93,8 @@ pub struct PShift {
     pub breaks: Vec<PBreak>,
     pub reloads: Vec<PReload>,
     pub has_recharges: bool,
+    /// maximum distance between two recharges (or a tour end) and the stations, each usable once
+    pub recharges: Option<(f64, Vec<PPlace>)>,
 }
 
 #[derive(Clone, Debug)]
@@ -307,6 +309,7 @@ impl PModel {
                     breaks,
                     reloads,
                     has_recharges: s.get("recharges").is_some(),
+                    recharges: s.get("recharges").map(|r| (jf64(r, "maxDistance").unwrap_or(f64::MAX), jarr(r, "stations").iter().map(parse_place).collect())),
                 });
             }
             let limits = v.get("limits");
